@@ -562,6 +562,9 @@ def mutate(rng, frame: bytes) -> bytes:
     return bytes(b)
 
 
+AMBIENT_SAMPLE = []  # in-range frames (captured + every ninth relation frame) decoded once more in the child interpreter
+
+
 def frame_case(ctx, f, frame, pairs, tag):
     """correspondence lines of one frame + the oracle when it is in range"""
     views, objs, sers = pairs
@@ -576,6 +579,8 @@ def frame_case(ctx, f, frame, pairs, tag):
         sers.append((f"ipsc.ser.{op} {hexf}", ser(path, frame)))
     inr = f is not None and in_range(f)
     ctx.count(f"frame:{tag}:{'in-range' if inr else 'out-of-range'}")
+    if inr and tag in ("rel", "captured") and len(AMBIENT_SAMPLE) < 400 and (tag == "captured" or ctx.evaluations % 9 == 0):
+        AMBIENT_SAMPLE.append((dict(f), frame))
     ctx.case(("frame", hexf), nontrivial=True, sample={"tag": tag, "frame": hexf, "fields": f} if ctx.evaluations % 499 == 7 else None)
     if inr:
         ctx.count(f"class:{expected_class(f)}")
@@ -653,6 +658,746 @@ def reserved_sweep(ctx, rng, pool, pairs):
                             set_res(f2, k, b.hex())
                             ctx.count(f"res-perturb:{k}")
                             frame_case(ctx, f2, build_frame(f2), pairs, "res-perturb")
+
+
+# ------------------------------------------------------------------------------------------------
+# rel:* - correlation between the frame's OWN fields (trailer ids, colour word, timeslot word, sequence number) and
+# the values INSIDE the payload the frame carries (link-layer ids of a data header, addresses of a CSBK / full LC,
+# ids a sync / wake-up payload repeats, colour code of the slot-type PDU / EMB, TDMA sync pattern, block counters),
+# and between sibling fields of the frame.  Payloads are built with the library's own PDU classes and FEC encoders
+# and read back by the library from the 33 octets alone (Burst constructor, no IPSC frame involved), so the relation
+# holds as the library sees it; the verdict compares with the layout reading of the 72 octets, as everywhere.
+# ------------------------------------------------------------------------------------------------
+M24 = 0xFFFFFF
+SRC_ATTRS = ("llid_source", "source_address")
+DST_ATTRS = ("llid_destination", "target_address", "group_address", "bs_address")
+DT_SLOT = {"PIHeader": "PrivacyIndicator", "VoiceLCHeader": "VoiceLCHeader", "TerminatorWithLC": "TerminatorWithLC", "CSBK": "CSBK",
+           "DataHeader": "DataHeader", "Rate12Data": "Rate12Data", "Rate34Data": "Rate34Data", "Rate1Data": "Undefined"}
+_REL = {}
+
+
+def rev24(v: int) -> int:
+    return int.from_bytes(v.to_bytes(3, "big"), "little")
+
+
+def rel_lib():
+    if "ns" in _REL:
+        return _REL["ns"]
+    from bitarray import bitarray
+    from bitarray.util import int2ba
+    from okdmr.dmrlib.etsi.fec.bptc_196_96 import BPTC19696
+    from okdmr.dmrlib.etsi.fec.trellis import Trellis34
+    from okdmr.dmrlib.etsi.fec.vbptc_128_72 import VBPTC12873
+    from okdmr.dmrlib.etsi.layer2.elements.burst_types import BurstTypes
+    from okdmr.dmrlib.etsi.layer2.elements.csbk_opcodes import CsbkOpcodes
+    from okdmr.dmrlib.etsi.layer2.elements.data_types import DataTypes
+    from okdmr.dmrlib.etsi.layer2.elements.sync_patterns import SyncPatterns
+    from okdmr.dmrlib.etsi.layer2.pdu.csbk import CSBK
+    from okdmr.dmrlib.etsi.layer2.pdu.data_header import DataHeader
+    from okdmr.dmrlib.etsi.layer2.pdu.embedded_signalling import EmbeddedSignalling
+    from okdmr.dmrlib.etsi.layer2.pdu.full_link_control import FullLinkControl
+    from okdmr.dmrlib.etsi.layer2.pdu.pi_header import PIHeader
+    from okdmr.dmrlib.etsi.layer2.pdu.slot_type import SlotType as L2Slot
+
+    class NS:
+        pass
+
+    ns = NS()
+    for k, v in list(locals().items()):
+        if k not in ("ns", "NS"):
+            setattr(ns, k, v)
+    _REL["ns"] = ns
+    return ns
+
+
+def bits_of(data: bytes):
+    from bitarray import bitarray
+
+    b = bitarray()
+    b.frombytes(bytes(data))
+    return b
+
+
+def pdu_templates(rng):
+    """[(label, DataTypes name, PDU class, 96 template bits, source attribute | None, destination attribute | None)]: the PDUs of
+    the captured frames and PDUs parsed by the library from random 96-bit words with the format / opcode field forced to
+    each defined value; an attribute qualifies when a value assigned to it is read back after as_bits -> from_bits"""
+    if "templates" in _REL:
+        return _REL["templates"]
+    ns = rel_lib()
+    burst_mod, _, K = L()
+    cand = []  # (label, data type name(s), class, bits)
+    for h in CAPTURED:
+        b = call(lambda: burst_mod.Burst.from_hytera_ipsc(K.from_bytes(bytes.fromhex(h))))
+        if is_err(b) or type(b).__name__ != "Burst" or not b.is_data_or_control:
+            continue
+        d = b.data
+        if isinstance(d, (ns.DataHeader, ns.CSBK, ns.FullLinkControl)):
+            bits = call(d.as_bits)
+            if not is_err(bits) and len(bits) == 96:
+                sub = getattr(d, "data_packet_format", None) or getattr(d, "csbko", None) or getattr(d, "full_link_control_opcode", None)
+                cand.append((f"{type(d).__name__}/{getattr(sub, 'name', sub)}/captured", [b.data_type.name], type(d), bits))
+    r = __import__("random").Random(0xC13)  # the template words are fixed: which formats the library parses does not depend on the seed
+
+    def forced(cls, lo, hi, values, names, label):
+        for v in values:
+            for i in range(24):
+                bits = ns.bitarray([r.randrange(2) for _ in range(96)])
+                bits[lo:hi] = ns.int2ba(v, length=hi - lo)
+                if i % 2:  # the third octet is an enumeration with two members in some CSBKs (answer response, reason code)
+                    bits[24:32] = ns.int2ba(r.choice([0x20, 0x21]), length=8)
+                if cls is not ns.DataHeader:
+                    bits[8:16] = ns.int2ba(r.choice([0, 0, 0x10, 0x68]), length=8)  # feature set: standard / Motorola / Hytera
+                p = call(cls.from_bits, bits)
+                if is_err(p) or p is None:
+                    continue
+                out = call(p.as_bits)
+                if is_err(out) or len(out) != 96:
+                    continue
+                sub = getattr(p, "data_packet_format", None) or getattr(p, "csbko", None) or getattr(p, "full_link_control_opcode", None)
+                cand.append((f"{label}/{getattr(sub, 'name', v)}", names, cls, out))
+                break
+
+    forced(ns.DataHeader, 4, 8, range(16), ["DataHeader"], "DataHeader")
+    forced(ns.CSBK, 2, 8, range(64), ["CSBK"], "CSBK")
+    forced(ns.FullLinkControl, 2, 8, [0, 3], ["VoiceLCHeader", "TerminatorWithLC"], "FullLinkControl")
+    out, seen = [], set()
+    A, B = 0x123456, 0xABCDEF
+    for label, names, cls, bits in cand:
+        def rt(attr, other=None):
+            p = call(cls.from_bits, bits.copy())
+            if is_err(p) or not isinstance(getattr(p, attr, None), int) or isinstance(getattr(p, attr), bool):
+                return False
+            setattr(p, attr, A)
+            if other:
+                setattr(p, other, B)
+            o = call(p.as_bits)
+            if is_err(o) or len(o) != 96:
+                return False
+            q = call(cls.from_bits, o)
+            return not is_err(q) and getattr(q, attr, None) == A and (not other or getattr(q, other, None) == B)
+
+        sa = next((a for a in SRC_ATTRS if rt(a)), None)
+        da = next((a for a in DST_ATTRS if rt(a) and (sa is None or rt(a, sa))), None)
+        if sa is None and da is None:
+            continue
+        for nm in names:
+            key = (label.replace("/captured", ""), nm, sa, da)
+            if key not in seen:
+                seen.add(key)
+                out.append((label, nm, cls, bits, sa, da))
+    _REL["templates"] = out
+    return out
+
+
+def valid_check_field(ns, cls, bits, dt_name):
+    """the PDU with its check field recomputed by the library (CRC-CCITT regenerated from a zeroed field; RS(12,9) parity with
+    the mask of the data type); None when the library offers no way"""
+    if cls in (ns.DataHeader, ns.CSBK):
+        z = bits.copy()
+        z[80:96] = 0
+        p = call(cls.from_bits, z)
+        o = None if is_err(p) else call(p.as_bits)
+        return o if o is not None and not is_err(o) and len(o) == 96 and o[80:96].any() else None
+    if cls is ns.FullLinkControl:
+        def go():
+            from okdmr.dmrlib.etsi.fec.reed_solomon_12_9_4 import ReedSolomon1294
+            from okdmr.dmrlib.etsi.layer2.elements.crc_masks import CrcMasks
+
+            mask = getattr(CrcMasks, dt_name).value
+            mask = mask if isinstance(mask, (bytes, bytearray)) else int(mask).to_bytes(3, "big")
+            full = ReedSolomon1294.generate(bits[:72].tobytes(), mask)  # the 9 data octets + 3 parity octets
+            return bits_of(full)
+
+        o = call(go)
+        return o if not is_err(o) and len(o) == 96 else None
+    return None
+
+
+def assemble_data_burst(ns, info196, cc, dt, sync):
+    slot = ns.L2Slot(colour_code=cc, data_type=dt).as_bits()
+    return (info196[:98] + slot[:10] + sync.as_bits() + slot[10:] + info196[98:]).tobytes()
+
+
+def read_back(ns, payload: bytes, bt):
+    """what the library parses from the 33 octets alone: (burst | None)"""
+    burst_mod, _, _ = L()
+    b = call(lambda: burst_mod.Burst(full_bits=bits_of(payload), burst_type=bt))
+    return None if is_err(b) else b
+
+
+def make_carriers(ctx, rng, ps, pd, pcc):
+    """payloads that embed the ids ps (source) / pd (destination) and the colour code pcc, one or more per payload kind:
+    dicts {label, slot (IPSC slot type to indicate), wake, payload, ps, pd, cc, tdma, octets (small numbers the payload carries)}"""
+    ns = rel_lib()
+    DT, SP, BT = ns.DataTypes, ns.SyncPatterns, ns.BurstTypes
+    data_sync = [SP.BsSourcedData, SP.MsSourcedData, SP.Tdma1Data, SP.Tdma2Data]
+    out = []
+
+    def tdma_of(sync):
+        return {"Tdma1Data": 1, "Tdma2Data": 2, "Tdma1Voice": 1, "Tdma2Voice": 2}.get(sync.name)
+
+    def add_data(label, dt_name, bits96=None, info196=None, ids=(None, None), octets=(), pdu_cls=None, sa=None, da=None):
+        dt = getattr(DT, dt_name)
+        sync = rng.choice(data_sync)
+        info = info196 if info196 is not None else call(ns.BPTC19696.encode, bits96)
+        if is_err(info):
+            ctx.count("rel:carrier-dropped:" + label)
+            return
+        payload = assemble_data_burst(ns, info, pcc, dt, sync)
+        b = read_back(ns, payload, BT.DataAndControl)
+        good = b is not None and len(payload) == 33 and b.data is not None and getattr(b.slot_type, "colour_code", None) == pcc
+        if good and pdu_cls is not None:
+            good = isinstance(b.data, pdu_cls) and (sa is None or getattr(b.data, sa, None) == ids[0]) and (da is None or getattr(b.data, da, None) == ids[1])
+        if not good:
+            ctx.count("rel:carrier-dropped:" + label)
+            return
+        slot = DT_SLOT[dt_name] if rng.random() < 0.85 else "Undefined"
+        out.append({"label": label, "slot": slot, "wake": False, "payload": payload, "ps": ids[0], "pd": ids[1], "cc": pcc,
+                    "tdma": tdma_of(sync), "octets": tuple(octets)})
+
+    # 1. PDUs with address fields, through BPTC(196,96)
+    for label, dt_name, cls, bits, sa, da in pdu_templates(rng):
+        p = call(cls.from_bits, bits.copy())
+        if is_err(p):
+            continue
+        if sa:
+            setattr(p, sa, ps)
+        if da:
+            setattr(p, da, pd)
+        octs = []
+        if isinstance(getattr(p, "blocks_to_follow", None), int) and not isinstance(p.blocks_to_follow, bool):
+            octs.append(p.blocks_to_follow)
+        o = call(p.as_bits)
+        if is_err(o) or len(o) != 96:
+            ctx.count("rel:carrier-dropped:" + label)
+            continue
+        if rng.random() < 0.6:
+            v = valid_check_field(ns, cls, o, dt_name)
+            if v is not None:
+                o = v
+                ctx.count("rel:carrier:check-field-recomputed")
+        add_data(label, dt_name, bits96=o, ids=(ps if sa else None, pd if da else None), octets=octs, pdu_cls=cls, sa=sa, da=da)
+    # 2. PDUs without address attributes: the ids travel in the data octets (big-endian, as on air; the IPv4 form 10.a.b.c too)
+    def id_octets(n, at=0):
+        form = rng.choice(["be", "be", "le", "ip"])
+        s = {"be": ps.to_bytes(3, "big") + pd.to_bytes(3, "big"), "le": ps.to_bytes(3, "little") + pd.to_bytes(3, "little"),
+             "ip": b"\x0a" + ps.to_bytes(3, "big") + b"\x0a" + pd.to_bytes(3, "big")}[form]
+        d = bytearray(rng.randrange(256) for _ in range(n))
+        d[at : at + len(s)] = s
+        return bytes(d[:n]), form
+
+    d, form = id_octets(10, rng.choice([0, 2]))
+    pi = call(lambda: ns.PIHeader(data=d).as_bits())
+    if not is_err(pi) and len(pi) == 96:
+        add_data(f"PIHeader/ids-in-data:{form}", "PIHeader", bits96=pi, ids=(ps, pd))
+    sync_csbk = call(lambda: ns.CSBK(csbko=ns.CsbkOpcodes.HyteraIPSCSync, raw_data=id_octets(8, 0)[0]).as_bits())
+    if not is_err(sync_csbk) and len(sync_csbk) == 96:
+        add_data("CSBK/HyteraIPSCSync/ids-in-raw-data", "CSBK", bits96=sync_csbk, ids=(ps, pd))
+    d, form = id_octets(12, rng.choice([0, 2, 4]))
+    add_data(f"Rate12Data/ids-in-data:{form}", "Rate12Data", bits96=bits_of(d), ids=(ps, pd), octets=[d[0] >> 1])
+    d, form = id_octets(18, rng.choice([0, 2, 8]))
+    add_data(f"Rate34Data/ids-in-data:{form}", "Rate34Data", info196=call(ns.Trellis34.encode, bits_of(d)), ids=(ps, pd), octets=[d[0] >> 1])
+    d, form = id_octets(24, rng.choice([0, 2, 12]))
+    r1 = bits_of(d)
+    add_data(f"Rate1Data/ids-in-data:{form}", "Rate1Data", info196=r1[:96] + ns.bitarray("0000") + r1[96:], ids=(ps, pd), octets=[d[0] >> 1])
+    # 3. sync / wake-up payloads (not DMR bursts): the 00-padded id copy the captured sync frames carry (destination at octets
+    # 7/9/11, source at 13/15/17), the same with non-zero fill, the two ids the other way round, and contiguous copies
+    def raw_base():
+        r = rng.random()
+        if r < 0.5:
+            caps = [p for p in _REL.get("sync_payloads", [])]
+            if caps:
+                return bytearray(rng.choice(caps))
+        if r < 0.75:
+            return bytearray(33)
+        return bytearray(rng.randrange(256) for _ in range(33))
+
+    def add_raw(label, payload, ids):
+        if len(payload) != 33 or read_back(ns, bytes(payload), BT.Undefined) is None:  # the Burst constructor's own refusals are outside the model
+            ctx.count("rel:carrier-dropped:" + label)
+            return
+        for slot, wake in (("VoiceOrDataSync", False), ("Wakeup", False), (rng.choice(["VoiceOrDataSync", "Wakeup", "CSBK", "VoiceFrameA", "Undefined"]), True)):
+            out.append({"label": label, "slot": slot, "wake": wake, "payload": bytes(payload), "ps": ids[0], "pd": ids[1], "cc": None, "tdma": None,
+                        "octets": (payload[0], payload[1], payload[32])})
+
+    def padded(first, second, fill):
+        p = raw_base()
+        for i, v in enumerate(first.to_bytes(3, "big") + second.to_bytes(3, "big")):
+            p[6 + 2 * i] = fill() if fill else 0
+            p[7 + 2 * i] = v
+        return p
+
+    add_raw("sync/00-padded dst@7,9,11 src@13,15,17", padded(pd, ps, None), (ps, pd))
+    add_raw("sync/00-padded src@7,9,11 dst@13,15,17", padded(ps, pd, None), (ps, pd))
+    add_raw("sync/padded with non-zero fill", padded(pd, ps, lambda: rng.randrange(1, 256)), (ps, pd))
+    p = raw_base()
+    at = rng.randrange(0, 27)
+    p[at : at + 6] = pd.to_bytes(3, "big") + ps.to_bytes(3, "big")
+    add_raw("sync/contiguous big-endian dst src", p, (ps, pd))
+    p = raw_base()
+    at = 2 * rng.randrange(0, 12)
+    words = bytes.fromhex(idword(pd) + idword(ps))  # the trailer's own 8 octets, as they stand in the frame
+    p2 = bytearray(swap16(bytes(p) + b"\x00"))
+    p2[at : at + 8] = words
+    add_raw("sync/copy of the trailer id words (frame octet order)", swap16(bytes(p2))[:33], (ps, pd))
+    # 4. voice bursts: EMB with the colour code + one 32-bit fragment of the VBPTC(128,72)-encoded full LC carrying the ids
+    def lc_fragments():
+        tpl = [t for t in pdu_templates(rng) if t[2] is ns.FullLinkControl and t[4] and t[5]]
+        if not tpl:
+            return None
+        _, _, cls, bits, sa, da = rng.choice(tpl)
+        p = cls.from_bits(bits.copy())
+        setattr(p, sa, ps)
+        setattr(p, da, pd)
+        enc = ns.VBPTC12873.encode(p.as_bits()[:72])
+        return [enc[32 * i : 32 * i + 32] for i in range(4)]
+
+    frags = call(lc_fragments)
+    if is_err(frags) or not frags:
+        ctx.count("rel:carrier-dropped:voice embedded LC")
+        frags = [rand_bits(rng, 32) for _ in range(4)]
+        lc_ids = (None, None)
+    else:
+        lc_ids = (ps, pd)
+    for i, letter in enumerate("BCDE"):
+        v = rand_bits(rng, 216)
+        e = ns.EmbeddedSignalling(colour_code=pcc, preemption_and_power_control_indicator=rng.randrange(2), link_control_start_stop=[1, 3, 3, 2][i]).as_bits()
+        payload = (v[:108] + e[:8] + frags[i] + e[8:] + v[108:]).tobytes()
+        b = read_back(ns, payload, BT.Undefined)
+        if b is None or read_back(ns, payload, BT.Vocoder) is None or getattr(b.emb, "colour_code", None) != pcc:
+            ctx.count("rel:carrier-dropped:voice " + letter)
+            continue
+        out.append({"label": f"voice {letter}/EMB + embedded LC fragment {i}", "slot": "VoiceFrame" + letter, "wake": False, "payload": payload,
+                    "ps": lc_ids[0], "pd": lc_ids[1], "cc": pcc, "tdma": None, "octets": ()})
+    for sync in (SP.BsSourcedVoice, SP.MsSourcedVoice, SP.Tdma1Voice, SP.Tdma2Voice):
+        v = bytearray(rand_bits(rng, 216).tobytes())
+        v[0:3], v[24:27] = ps.to_bytes(3, "big"), pd.to_bytes(3, "big")  # vocoder octets that happen to spell the ids
+        vb = bits_of(v)
+        payload = (vb[:108] + sync.as_bits() + vb[108:]).tobytes()
+        if read_back(ns, payload, BT.Undefined) is not None and read_back(ns, payload, BT.Vocoder) is not None:
+            out.append({"label": f"voice A/{sync.name}", "slot": "VoiceFrameA", "wake": False, "payload": payload, "ps": ps, "pd": pd, "cc": None,
+                        "tdma": tdma_of(sync), "octets": ()})
+    return out
+
+
+def id_relations(rng, ps, pd, f):
+    """(name, trailer source, trailer destination) for payload ids ps / pd (None: the payload has no such id) and the frame's other fields"""
+    r = lambda: rng.randrange(1 << 24)  # noqa: E731
+    bit = lambda: 1 << rng.randrange(24)  # noqa: E731
+    out = []
+    if ps is not None and pd is not None:
+        out += [
+            ("equal", ps, pd), ("crossed", pd, ps), ("crossed,src+1", (pd + 1) & M24, ps), ("crossed,dst-1", pd, (ps - 1) & M24),
+            ("crossed,src-1", (pd - 1) & M24, ps), ("crossed,dst+1", pd, (ps + 1) & M24), ("equal,src-1", (ps - 1) & M24, pd), ("equal,dst+1", ps, (pd + 1) & M24),
+            ("equal,src+1", (ps + 1) & M24, pd), ("equal,dst-1", ps, (pd - 1) & M24), ("equal,src one bit off", ps ^ bit(), pd),
+            ("equal,low 16 bits only", ps & 0xFFFF, pd & 0xFFFF), ("crossed,low 16 bits only", pd & 0xFFFF, ps & 0xFFFF), ("equal,shifted right one octet", ps >> 8, pd >> 8),
+            ("equal,shifted left one octet", (ps << 8) & M24, (pd << 8) & M24), ("equal,both +1", (ps + 1) & M24, (pd + 1) & M24), ("crossed,both -1", (pd - 1) & M24, (ps - 1) & M24),
+            ("crossed,dst one bit off", pd, ps ^ bit()), ("octet-reversed", rev24(ps), rev24(pd)), ("crossed,octet-reversed", rev24(pd), rev24(ps)),
+            ("complemented", ps ^ M24, pd ^ M24), ("crossed,complemented", pd ^ M24, ps ^ M24),
+        ]
+    for nm, v in (("ps", ps), ("pd", pd)):
+        if v is None:
+            continue
+        out += [
+            (f"src=dst={nm}", v, v), (f"src={nm},dst random", v, r()), (f"dst={nm},src random", r(), v), (f"src={nm},dst=0", v, 0), (f"dst={nm},src=0", 0, v),
+            (f"src={nm},dst={nm}+1", v, (v + 1) & M24), (f"src={nm}-1,dst={nm}", (v - 1) & M24, v), (f"src=dst={nm}+1", (v + 1) & M24, (v + 1) & M24),
+            (f"src={nm},dst=FFFFFF", v, M24), (f"dst={nm},src=FFFFFF", M24, v),
+        ]
+    x = r()
+    seq, cc, slot = f["seq"], f["cc"], 1 if f["ts"] == 0x1111 else 2
+    out += [
+        ("src=dst", x, x), ("src=dst+1", (x + 1) & M24, x), ("src=dst-1", (x - 1) & M24, x), ("src=~dst", x ^ M24, x), ("src=octet-reversed dst", rev24(x), x),
+        ("src=dst=0", 0, 0), ("src=dst=FFFFFF", M24, M24), ("src=0,dst=FFFFFF", 0, M24),
+        ("src=seq", seq, r()), ("dst=seq", r(), seq), ("src=dst=seq", seq, seq), ("src=seq*010101", seq * 0x010101, r()), ("dst=seq<<16", r(), seq << 16),
+        ("src=cc", cc, r()), ("dst=cc", r(), cc), ("dst=cc*111111", r(), cc * 0x111111), ("src=cc*11,dst=cc*1111", cc * 0x11, cc * 0x1111),
+        ("dst=slot number", r(), slot), ("src=slot number,dst=other slot", slot, 3 - slot), ("src=slot-type word", f["st"], r()),
+        ("dst=timeslot word", r(), f["ts"]), ("src=5a5a5a", 0x5A5A5A, r()), ("dst=packet type", r(), f["pt"]),
+    ]
+    return out
+
+
+def coherent_header(rng, f, slot, wake):
+    """packet / frame / call type and reserved octets as captured frames of this kind have them"""
+    if slot in ("VoiceOrDataSync", "Wakeup") or wake:
+        f["pt"] = PACKET_VALUES["TypeB"]
+        f["ft"] = rng.choice([0x1111, 0x3333, 0xEEEE]) if slot == "VoiceOrDataSync" else 0
+    else:
+        f["pt"] = PACKET_VALUES["TerminatorWithLC"] if slot == "TerminatorWithLC" else PACKET_VALUES["TypeA"]
+        f["ft"] = 0
+    for k, v in rng.choice(res_dict()["tuples"]).items():
+        set_res(f, k, v)
+    if rng.random() < 0.5:
+        f["r7"] = "000501%02x000000" % (1 if f["ts"] == 0x1111 else 2)
+
+
+def carrier_frame(rng, pool, c, coherent=None):
+    """fields of a frame that carries the carrier's payload under the slot type it belongs to"""
+    f = gen_frame(rng, pool, wf_bias=1.0)
+    f["st"] = SLOT_VALUES[c["slot"]]
+    f["ct"] = CALL_VALUES[rng.choice(["WakeupCall_2", "WakeupCall_c"])] if c["wake"] else CALL_VALUES[rng.choice(["PrivateCall", "GroupCall"])]
+    if coherent if coherent is not None else rng.random() < 0.6:
+        coherent_header(rng, f, c["slot"], c["wake"])
+    f["burst"], f["kind"] = c["payload"].hex(), "rel:" + c["label"].split("/")[0]
+    if c["cc"] is not None and rng.random() < 0.6:
+        set_typed(f, "cc", c["cc"])
+    return f
+
+
+def relation_sweep(ctx, rng, pool, pairs):
+    """every relation between trailer ids / colour / timeslot / sequence and the payload's own values x every payload kind
+    (both decoders, the object view, the burst view and the serialiser, through frame_case)"""
+    burst_mod, _, K = L()
+    if "sync_payloads" not in _REL:
+        sp = []
+        for h in CAPTURED:
+            fc = fields_of_captured(h)
+            if fc["st"] in (SLOT_VALUES["VoiceOrDataSync"], SLOT_VALUES["Wakeup"]):
+                sp.append(bytes.fromhex(fc["burst"]))
+        _REL["sync_payloads"] = sp
+
+    def pick_ids():
+        r = rng.random()
+        if r < 0.35:
+            a, b = rng.sample([2308090, 2308091, 2308092, 2308094, 2308155, 2308195, 111, 9, 2623266, 2504105, 250997, 2301], 2)
+        elif r < 0.55:
+            a, b = rng.sample([1, 2, 0xFF, 0x100, 0xFFFF, 0x10000, 0x7FFFFF, 0x800000, 0xFFFFFE, 0xFFFFFF, 0], 2)
+        else:
+            a, b = rng.randrange(1 << 24), rng.randrange(1 << 24)
+        if rng.random() < 0.08:
+            b = a  # the payload's own two ids coincide
+        elif rng.random() < 0.08:
+            b = (a + 1) & M24
+        return a, b
+
+    def emit(tag, c, f):
+        ctx.count(f"rel:{tag}")
+        ctx.count(f"rel-kind:{c['label'].split(':')[0]}")
+        frame_case(ctx, f, build_frame(f), pairs, "rel")
+
+    for rnd in range(ctx.budget(1, 10)):
+        # three id pairs / colours per round (captured-like, boundary, random - or whatever pick_ids draws), every payload kind with one of them
+        carriers = []
+        for k in range(3):
+            ps, pd = pick_ids() if (k, rnd % 4) != (2, 3) else (0, 0)
+            made = make_carriers(ctx, rng, ps, pd, rng.randrange(16))
+            carriers += [c for i, c in enumerate(made) if (i + rnd) % 3 == k]
+        ctx.count("rel:carriers", len(carriers))
+        correlation_extras(ctx, rng, pool, pairs, carriers)
+        for c in carriers:
+            # ids: every relation once per carrier
+            f0 = carrier_frame(rng, pool, c)
+            for name, s, d in id_relations(rng, c["ps"], c["pd"], f0):
+                f = dict(f0) if rng.random() < 0.5 else carrier_frame(rng, pool, c)
+                set_typed(f, "src", s)
+                set_typed(f, "dst", d)
+                emit("ids:" + name.replace("ps", "payload-src").replace("pd", "payload-dst"), c, f)
+            # the other fields on a frame whose ids agree with the payload (as every captured frame does)
+            def consistent():
+                f = carrier_frame(rng, pool, c, coherent=rng.random() < 0.8)
+                if c["ps"] is not None:
+                    set_typed(f, "src", c["ps"])
+                if c["pd"] is not None:
+                    set_typed(f, "dst", c["pd"])
+                return f
+
+            if c["cc"] is not None:
+                for name, v in (("equal", c["cc"]), ("+1", (c["cc"] + 1) & 15), ("-1", (c["cc"] - 1) & 15), ("complement", 15 - c["cc"]),
+                                ("one bit off", c["cc"] ^ (1 << rng.randrange(4))), ("0", 0), ("15", 15)):
+                    f = consistent()
+                    set_typed(f, "cc", v)
+                    emit("colour:frame = payload " + name, c, f)
+            for tsn, tsv in TS_VALUES.items():
+                f = consistent()
+                f["ts"] = tsv
+                emit(f"timeslot:{tsn} x payload sync {'TDMA' + str(c['tdma']) if c['tdma'] else 'not slot-specific'}", c, f)
+            seqs = [("payload counter / first octets", lambda f, o=o: o) for o in c["octets"]] + [
+                ("a payload octet", lambda f: c["payload"][rng.randrange(33)]), ("colour", lambda f: f["cc"]),
+                ("low octet of dst", lambda f: f["dst"] & 255), ("low octet of src", lambda f: f["src"] & 255),
+                ("high octet of src", lambda f: f["src"] >> 16), ("slot number", lambda f: 1 if f["ts"] == 0x1111 else 2),
+            ]
+            for name, fn in seqs:
+                f = consistent()
+                f["seq"] = fn(f) & 255
+                emit("sequence = " + name, c, f)
+
+
+def checksum_functions():
+    """name -> function(bytes) -> int: the checksums a frame could plausibly carry about one of its own parts (the library's own
+    CRC / checksum routines where it has them, plus the plain sums)"""
+    import zlib
+
+    fns = {
+        "sum16": lambda d: sum(d) & 0xFFFF, "sum8": lambda d: sum(d) & 0xFF, "xor8": lambda d: __import__("functools").reduce(lambda a, b: a ^ b, d, 0),
+        "neg-sum16": lambda d: (-sum(d)) & 0xFFFF, "crc32-zlib": lambda d: zlib.crc32(bytes(d)), "length": lambda d: len(d),
+        "sum16-of-words-le": lambda d: sum(int.from_bytes(d[i : i + 2], "little") for i in range(0, len(d) - 1, 2)) & 0xFFFF,
+    }
+
+    def lib(name, make):
+        try:
+            fn = make()
+            fn(bytes(10))
+            fns[name] = fn
+        except BaseException:  # noqa: a routine the library does not (or no longer) offer is simply not used
+            pass
+
+    def crc16(mask_name):
+        from okdmr.dmrlib.etsi.crc.crc16 import CRC16
+        from okdmr.dmrlib.etsi.layer2.elements.crc_masks import CrcMasks
+
+        m = getattr(CrcMasks, mask_name)
+        return lambda d: int(CRC16.calculate(bytes(d), m))
+
+    lib("crc16-ccitt/CSBK mask", lambda: crc16("CSBK"))
+    lib("crc16-ccitt/DataHeader mask", lambda: crc16("DataHeader"))
+
+    def cs5():
+        from okdmr.dmrlib.etsi.fec.five_bit_checksum import FiveBitChecksum
+
+        return lambda d: FiveBitChecksum.calculate(bytes(d[:9]))
+
+    lib("five-bit checksum of the first 9 octets", cs5)
+
+    def crc32lib():
+        from okdmr.dmrlib.etsi.crc.crc32 import CRC32
+
+        return lambda d: int(CRC32.calculate(bytes(d) + bytes(-len(d) % 2)))
+
+    lib("crc32/library", crc32lib)
+    return fns
+
+
+def hi_lo_disjoint(a_lo, a_hi, b_lo, b_hi) -> bool:
+    return a_hi <= b_lo or b_hi <= a_lo
+
+
+def correlation_extras(ctx, rng, pool, pairs, carriers):
+    """siblings of the id / colour relations: payload kind x indicated slot type, a checksum of one part of the frame inside
+    another part, the frame's magic constant inside other fields, pad / id-word low octets / colour-word octets tied to the
+    payload, frames serialised by the library itself.  Frames that leave the property's range only feed the correspondence."""
+    _, H, _ = L()
+
+    def emit(tag, f, label):
+        ctx.count(f"rel:{tag}")
+        frame_case(ctx, f, build_frame(f), pairs, "rel")
+
+    def consistent(c, coherent=True):
+        f = carrier_frame(rng, pool, c, coherent=coherent)
+        if c["ps"] is not None:
+            set_typed(f, "src", c["ps"])
+        if c["pd"] is not None:
+            set_typed(f, "dst", c["pd"])
+        return f
+
+    raw = [c for c in carriers if c["label"].startswith("sync/")]
+    # payload kind x slot type: every carrier under four other slot types (in range only when the payload still is of the indicated kind)
+    for c in carriers:
+        for sn in rng.sample(SLOT, 4):
+            f = consistent(c, coherent=False)
+            f["st"] = SLOT_VALUES[sn]
+            is_raw, is_voice = c["label"].startswith("sync/"), c["label"].startswith("voice")
+            sync_like = sn in ("Wakeup", "VoiceOrDataSync") or c["wake"]
+            f["parses"] = bool((sync_like and (is_raw or is_voice)) or (not sync_like and ((is_voice and sn in VOICE_SLOTS) or (not is_raw and not is_voice and sn not in VOICE_SLOTS))))
+            if not f["parses"] and not constructs(build_frame(f)):
+                ctx.count("rel:kind-cross:constructor-rejects (skipped)")
+                continue
+            emit("kind-cross:payload kind x other slot type", f, c["label"])
+        if c["cc"] is not None:  # colour word whose two octets differ, one of them the payload's colour (out of range: both decoders must still agree)
+            o = rng.randrange(16)
+            for word in (bytes([c["cc"] * 17, o * 17]), bytes([o * 17, c["cc"] * 17]), bytes([c["cc"] | (o << 4)] * 2)):
+                f = consistent(c)
+                f["ccword"], f["cc"] = word.hex(), None
+                emit("colour-word octets: payload colour / another", f, c["label"])
+        for lowname, low in (("payload octet", c["payload"][rng.randrange(33)]), ("sequence", None), ("colour*17", None)):
+            f = consistent(c)
+            v = low if low is not None else f["seq"] if lowname == "sequence" else f["cc"] * 17
+            if v:
+                f["dstword"] = idword(f["dst"], v)
+                if rng.random() < 0.5:
+                    f["srcword"] = idword(f["src"], v)
+                emit("id-word low octet = " + lowname, f, c["label"])
+        for name, v in (("last payload octet", c["payload"][32]), ("first payload octet", c["payload"][0]), ("sequence", None), ("low octet of src", None)):
+            f = consistent(c)
+            f["pad"] = v if v is not None else f["seq"] if name == "sequence" else f["src"] & 255
+            emit("pad = " + name, f, c["label"])
+    # a checksum of one part inside another part
+    fns = checksum_functions()
+    targets = [("r2a", 2), ("r2b", 2), ("first", 2), ("r3", 3), ("r1", 1), ("pad", 1), ("r7", 7), ("seq", 1), ("src", 3), ("dst", 3)]
+    part_names = ["payload field (34 octets as in the frame)", "burst (33 octets)", "header (octets 0..25)", "id words", "octets 4..61", "payload + trailer",
+                  "type words (octets 16..23)"]
+    # the two 16-bit reserved fields next to the payload: every function x every part x both octet orders; the other targets: a sample
+    plan = [(t, fn, pn, o) for t in (("r2a", 2), ("r2b", 2)) for fn in sorted(fns) for pn in part_names for o in ("big", "little")]
+    plan += [(rng.choice(targets), rng.choice(sorted(fns)), rng.choice(part_names), rng.choice(["big", "little"])) for _ in range(64)]
+    for i, ((tgt, n), fname, want_part, order) in enumerate(plan):
+        c = carriers[(i * 7 + 3) % len(carriers)]
+        for _ in range(1):
+            f = consistent(c, coherent=rng.random() < 0.7)
+            fr = build_frame(f)
+            t_lo, t_hi = {"r2a": (24, 26), "r2b": (60, 62), "first": (0, 2), "r3": (5, 8), "r1": (71, 72), "pad": (58, 59), "r7": (9, 16), "seq": (4, 5),
+                          "src": (67, 71), "dst": (63, 67)}[tgt]
+            # the part covered must not contain the field that receives the checksum (the relation then holds exactly)
+            parts = [("payload field (34 octets as in the frame)", 26, 60), ("burst (33 octets)", None, None), ("header (octets 0..25)", 0, 26), ("id words", 63, 71),
+                     ("octets 4..61", 4, 62), ("payload + trailer", 26, 72), ("type words (octets 16..23)", 16, 24)]
+            ok_parts = [q for q in parts if q[1] is None or hi_lo_disjoint(q[1], q[2], t_lo, t_hi)]
+            part_name, lo, hi = next((q for q in ok_parts if q[0] == want_part), None) or rng.choice(ok_parts)
+            part = bytes.fromhex(f["burst"]) if lo is None else fr[lo:hi]
+            v = call(fns[fname], part)
+            if not isinstance(v, int):
+                continue
+            val = (v & ((1 << (8 * n)) - 1)).to_bytes(n, order)
+            if tgt == "seq":
+                f["seq"] = val[0]
+            elif tgt in ("src", "dst"):
+                set_typed(f, tgt, int.from_bytes(val, "big"))
+            elif tgt == "r7":
+                f["r7"] = (bytes.fromhex(f["r7"])[: 7 - min(4, max(2, (v.bit_length() + 7) // 8))] + (v & 0xFFFFFFFF).to_bytes(4, order)[-min(4, max(2, (v.bit_length() + 7) // 8)) :]).hex()
+            else:
+                set_res(f, tgt, val.hex())
+            ctx.count("rel:checksum-fn:" + fname)
+            emit(f"checksum of a part of the frame in {tgt}", f, c["label"])
+    # the frame's magic (5a5a5a5a / 5a5a) and copies of the frame's own header inside other fields
+    for c in rng.sample(raw, min(len(raw), 8)) if raw else []:
+        f = consistent(c)
+        p = bytearray(swap16(bytes.fromhex(f["burst"]) + bytes([f["pad"]])))  # the 34 octets as they stand in the frame
+        what = rng.choice(["magic", "magic", "header copy", "trailer copy", "whole header"])
+        at = rng.randrange(0, 30)
+        fr = build_frame(f)
+        ins = {"magic": bytes.fromhex("5a5a5a5a"), "header copy": fr[0:9], "trailer copy": fr[62:72], "whole header": fr[0:26]}[what]
+        p[at : at + len(ins)] = ins[: 34 - at]
+        sw = swap16(bytes(p[:34]))
+        f["burst"], f["pad"] = sw[:33].hex(), sw[33]
+        if not constructs(build_frame(f)):
+            ctx.count("rel:constructor-rejects (skipped)")
+            continue
+        emit(f"payload contains the frame's own {what}", f, c["label"])
+    for c in rng.sample(carriers, min(len(carriers), 8)):
+        f = consistent(c)
+        k = rng.choice(["r3", "r7", "r2a", "r2b", "seq+r3", "ids"])
+        if k == "seq+r3":
+            f["seq"], f["r3"] = 0x5A, "5a5a5a"
+        elif k == "ids":
+            set_typed(f, "dst", 0x5A5A5A)
+            set_typed(f, "src", 0x5A5A5A)
+            f["r2b"], f["r1"] = "5a5a", "5a"
+        else:
+            f[k] = "5a" * RES_LEN[k]
+        emit("magic 5a5a in " + k, f, c["label"])
+    # frames serialised by the library itself from a constructed object (another code path produces the input)
+    for c in rng.sample(carriers, min(len(carriers), 12)):
+        f = consistent(c, coherent=False)
+
+        def mk():
+            inv = lambda d, v: next(k for k, x in d.items() if x == v)  # noqa: E731
+            o = H(call_type=enum_member("call_type", CALL.index(inv(CALL_VALUES, f["ct"]))), frame_type=enum_member("frame_type", FRAME.index(inv(FRAME_VALUES, f["ft"]))),
+                  packet_type=enum_member("packet_type", PACKET.index(inv(PACKET_VALUES, f["pt"]))), slot_type=enum_member("slot_type", SLOT.index(inv(SLOT_VALUES, f["st"]))),
+                  timeslot=enum_member("timeslot", TS.index(inv(TS_VALUES, f["ts"]))), sequence_number=f["seq"], color_code=f["cc"],
+                  destination_radio_id=f["dst"], source_radio_id=f["src"], payload=bytes.fromhex(f["burst"]))
+            return o.as_ipsc_bytes()
+
+        fr = call(mk)
+        if is_err(fr) or len(fr) != 72:
+            ctx.count("rel:library-built:serialiser refused")
+            continue
+        f2 = fields_of_captured(bytes(fr).hex())
+        f2["kind"] = f["kind"]
+        want = dict(f, **{k: RES_DEFAULT[k] for k in RES_DEFAULT if k != "pad"}, pad=0)
+        if build_frame(want) != bytes(fr):
+            ctx.fail("reserialise", {"fields": want, "frame": build_frame(want).hex()}, "a HyteraIPSC object constructed from in-range field values (default reserved octets) "
+                     "does not serialise to the frame the layout gives for these fields", expected=build_frame(want).hex(), actual=bytes(fr).hex())
+        ctx.count("rel:library-built frame decoded again")
+        frame_case(ctx, f2, bytes(fr), pairs, "rel")
+
+
+# ------------------------------------------------------------------------------------------------
+# ambient state and error-path state (cheap, one child process per run): `python -O`, the very first calls on the
+# classes are failing ones (wrong length, undefined type value, wrong magic), root logger at DEBUG, sys.stdout that
+# raises, `random` reseeded between calls; then well-formed frames (captured + relation frames) by both decoders
+# ------------------------------------------------------------------------------------------------
+CHILD = r"""
+import json, logging, random, sys, warnings
+warnings.simplefilter("ignore")
+job = json.load(sys.stdin)
+sys.path.insert(0, job["root"])  # the tree the parent run imports the library from
+frames = [bytes.fromhex(h) for h in job["frames"]]
+class Broken:
+    def write(self, *a, **k): raise OSError("stdout is gone")
+    def flush(self): raise OSError("stdout is gone")
+logging.getLogger().setLevel(logging.DEBUG)
+sys.stdout = Broken()
+from okdmr.dmrlib.hytera.hytera_ipsc import HyteraIPSC
+from okdmr.kaitai.hytera.ip_site_connect_protocol import IpSiteConnectProtocol
+from okdmr.dmrlib.etsi.layer2.burst import Burst
+from okdmr.dmrlib.utils.bits_bytes import bits_to_bytes
+first = []
+bad = [frames[0][:71], frames[0][:62] + b"\x07" + frames[0][63:], frames[0][:18] + b"\x12\x11" + frames[0][20:], b"", frames[0][:2] + b"\xa5\xa5" + frames[0][4:]]
+for x in bad:  # the first calls ever made on the classes fail
+    for fn in (HyteraIPSC.from_ipsc_bytes, lambda d: HyteraIPSC.from_kaitai(IpSiteConnectProtocol.from_bytes(d)), Burst.from_hytera_ipsc,
+               lambda d: Burst.from_hytera_ipsc(IpSiteConnectProtocol.from_bytes(d))):
+        try:
+            fn(x); first.append("ok")
+        except BaseException as e:
+            first.append(type(e).__name__)
+out = []
+for i, fr in enumerate(frames):
+    random.seed(i % 3)
+    row = {}
+    for name in ("raw", "kaitai"):
+        try:
+            b = Burst.from_hytera_ipsc(fr if name == "raw" else IpSiteConnectProtocol.from_bytes(fr))
+            h = b.hytera_ipsc
+            row[name] = [type(b).__name__, bits_to_bytes(b.full_bits).hex(), b.timeslot, b.sequence_no, h.color_code, b.source_radio_id, h.source_radio_id,
+                         h.destination_radio_id, b.target_radio_id, h.as_ipsc_bytes().hex()]
+        except BaseException as e:
+            row[name] = "ERR " + type(e).__name__
+    out.append(row)
+    if i % 7 == 3:  # failing calls in between
+        for x in bad[:2]:
+            try:
+                Burst.from_hytera_ipsc(x)
+            except BaseException:
+                pass
+sys.stderr.write("C13CHILD " + json.dumps({"first": first, "out": out, "optimised": not __debug__}) + "\n")
+"""
+
+
+def ambient_child(ctx, frames):
+    """frames: [(fields, bytes)] in range.  One `python -O` child; the verdict is the layout reading, as everywhere"""
+    import subprocess
+    import sys
+
+    try:
+        import os
+
+        import okdmr.dmrlib
+
+        root = os.path.dirname(os.path.dirname(os.path.dirname(os.path.abspath(okdmr.dmrlib.__file__))))
+        r = subprocess.run([sys.executable, "-O", "-c", CHILD], input=json.dumps({"root": root, "frames": [fr.hex() for _, fr in frames]}), capture_output=True,
+                           text=True, timeout=120)
+        line = next((ln for ln in r.stderr.splitlines() if ln.startswith("C13CHILD ")), None)
+    except BaseException as e:  # noqa
+        ctx.count(f"ambient:child could not run ({type(e).__name__})")
+        return
+    if line is None:
+        ctx.fail("ambient-child", {"frames": len(frames), "ambient": "python -O, root logger DEBUG, failing sys.stdout, first calls failing"},
+                 "the decoders did not get through a list of well-formed frames in a child interpreter (python -O, root logger at DEBUG, sys.stdout "
+                 "raising, the first calls on the classes being failing ones)", expected="a result per frame", actual=(r.stderr or "")[-400:])
+        return
+    res = json.loads(line[len("C13CHILD "):])
+    ctx.count("ambient:child python -O" if res.get("optimised") else "ambient:child (not optimised)")
+    ctx.count("ambient:first calls failing", len(res["first"]))
+    for (f, fr), row in zip(frames, res["out"]):
+        ctx.count("ambient:frames")
+        cls = {"sync": "HyteraIPSCSync", "wakeup": "HyteraIPSCWakeup", "burst": "Burst"}[expected_class(f)]
+        for path in ("raw", "kaitai"):
+            got = row[path]
+            want = [cls, f["burst"], 1 if f["ts"] == 0x1111 else 2, f["seq"], f["cc"], f["src"], f["src"], f["dst"], f["dst"], fr.hex()]
+            if isinstance(got, list) and not f["dst"]:
+                got[8] = want[8] = None  # destination 0: the burst's target is the library's guess from the payload
+            if got != want:
+                ctx.fail("ambient-child", {"fields": f, "frame": fr.hex(), "ambient": "python -O, root logger DEBUG, failing sys.stdout, random reseeded, first calls failing"},
+                         f"{path} path in a child interpreter (python -O, root logger at DEBUG, sys.stdout raising, random reseeded, failing calls first and in "
+                         "between): class / payload / timeslot / sequence / colour / ids / re-serialisation differ from what the frame encodes", expected=want, actual=got)
+                return
 
 
 # ------------------------------------------------------------------------------------------------
@@ -967,9 +1712,20 @@ def variants(rng, f):
     names = ["seq", "cc", "dst", "src", "ts", "pt", "ft", "r3", "r7", "r2a", "r2b", "r1", "pad", "first"]
     if {v: k for k, v in SLOT_VALUES.items()}[f["st"]] in VOICE_SLOTS:
         names.append("st")
-    for g in rng.sample(names, 3):
+    # relations to the frame decoded before: the reply (ids swapped), a frame addressed to its own source, neighbours by one
+    names += ["ids-swapped", "dst:=src", "src:=dst", "src+1"]
+    for g in rng.sample(names, 4):
         f2 = dict(f)
-        if g == "seq":
+        if g == "ids-swapped":
+            set_typed(f2, "src", f["dst"])
+            set_typed(f2, "dst", f["src"])
+        elif g == "dst:=src":
+            set_typed(f2, "dst", f["src"])
+        elif g == "src:=dst":
+            set_typed(f2, "src", f["dst"])
+        elif g == "src+1":
+            set_typed(f2, "src", (f["src"] + 1) & M24)
+        elif g == "seq":
             f2["seq"] = (f["seq"] + rng.choice([1, 0x40, 255])) & 255
         elif g == "cc":
             set_typed(f2, "cc", (f["cc"] + rng.randrange(1, 16)) % 16)
@@ -1038,13 +1794,14 @@ class Planner:
 
     def __init__(self, rng, pool, frames, errs=None):
         self.rng, self.pool, self.frames, self.errs = rng, pool, frames, errs or {}
-        self.steps, self.m, self.is_burst = [], [], []
+        self.steps, self.m, self.is_burst, self.fi = [], [], [], []
 
     def dec(self, ep, fi, same):
         self.steps.append(["dec", ep, fi, bool(same)])
         if ep in self.errs.get(fi, ()):
             return None  # refused: nothing is handed out
         self.m.append(dict(layout_obj(self.frames[fi])))
+        self.fi.append(fi)
         self.is_burst.append(ep in ("braw", "bkai"))
         return len(self.m) - 1
 
@@ -1059,6 +1816,11 @@ class Planner:
             else:
                 n = int(rg[1:])
                 v = bytes(self.rng.randrange(256) for _ in range(self.rng.choice([max(0, n - 1), n + 1, n + 2]))).hex() or "-"
+        self.m[ref][attr] = v
+        self.steps.append(["set", ref, attr, v])
+
+    def set_to(self, ref, attr, v):
+        """a chosen in-range value (e.g. the sibling field's, the reply's)"""
         self.m[ref][attr] = v
         self.steps.append(["set", ref, attr, v])
 
@@ -1180,6 +1942,64 @@ def history_probe(ctx, rng, pool, hist_lines):
         found += episode("random", frames, inr, plan_random(rng, pool, frames, rng.choice([20, 40, 80]), errs))
         if found >= 8:
             return
+    # conversations: a stream of frames whose trailer ids agree with the ids inside their payloads, then the reply (trailer AND payload ids
+    # swapped), the reply with only the trailer swapped (crossed against its payload), a frame addressed to its own source; every frame by one
+    # entry point, then by another, a held result re-stamped to the reply's ids in between
+    for _ in range(ctx.budget(12, 300)):
+        a, b = rng.sample([2308090, 2308092, 2308155, 2308195, 111, 9, 1, 0xFFFFFF, rng.randrange(1 << 24), rng.randrange(1 << 24)], 2)
+        pcc = rng.randrange(16)
+        fwd, back = make_carriers(ctx, rng, a, b, pcc), make_carriers(ctx, rng, b, a, pcc)
+        frames, inr = [], []
+        seq0 = rng.choice([rng.randrange(256), rng.randrange(246, 256)])  # half of the streams wrap 255 -> 0
+
+        def put(c, src, dst):
+            f = carrier_frame(rng, pool, c, coherent=True)
+            set_typed(f, "cc", pcc)
+            set_typed(f, "src", src)
+            set_typed(f, "dst", dst)
+            f["seq"] = (seq0 + len(frames)) & 255
+            fr = build_frame(f)
+            if fr not in frames and constructs(fr):
+                frames.append(fr)
+                inr.append(bool(in_range(f)))
+
+        def superframe(cs):
+            """LC header, voice A, voice B..E with the four fragments of ONE embedded LC in order, terminator"""
+            by = lambda pre: [c for c in cs if c["label"].startswith(pre)][:1]  # noqa: E731
+            hdr = [c for c in cs if c["label"].startswith("FullLinkControl") and c["slot"] == "VoiceLCHeader"][:1]
+            term = [c for c in cs if c["label"].startswith("FullLinkControl") and c["slot"] == "TerminatorWithLC"][:1]
+            return hdr + by("voice A") + by("voice B") + by("voice C") + by("voice D") + by("voice E") + term
+
+        ordered = rng.random() < 0.5
+        ctx.count("hist:conversation:" + ("voice superframe in order" if ordered else "mixed payload kinds"))
+        for c in superframe(fwd) if ordered else rng.sample(fwd, min(4, len(fwd))):
+            put(c, a, b)
+        for c in superframe(back) if ordered and rng.random() < 0.5 else rng.sample(back, min(3, len(back))):
+            put(c, b, a)
+        if ordered:
+            for c in superframe(fwd):
+                put(c, b, a)  # the whole superframe crossed against the LC it carries
+        for c in rng.sample(fwd, min(2, len(fwd))):
+            put(c, b, a)  # crossed against the payload
+        for c in rng.sample(fwd, min(2, len(fwd))):
+            put(c, a, a)
+        if len(frames) < 3:
+            continue
+        p = Planner(rng, pool, frames)
+        eps = rng.sample(ENTRY, 2)
+        for fi in range(len(frames)):
+            p.dec(eps[0], fi, False)
+        t = rng.randrange(len(p.m))
+        p.set_to(t, "source_radio_id", p.m[t]["destination_radio_id"])
+        p.set_to(t, "destination_radio_id", layout_obj(frames[p.fi[t]])["source_radio_id"])
+        p.ser(t)
+        for fi in range(len(frames)):
+            p.dec(eps[1], fi, rng.random() < 0.5)
+        for fi in rng.sample(range(len(frames)), min(4, len(frames))):
+            p.dec(rng.choice(ENTRY), fi, True)
+        found += episode("conversation", frames, inr, p.steps)
+        if found >= 8:
+            return
     for _ in range(ctx.budget(1, 6)):
         frames, inr = [], []
         want = 300 if not ctx.thorough() else 1200
@@ -1236,6 +2056,7 @@ def check_corpus_held(ctx, kept):
 
 def run(ctx):
     patch_burst()
+    del AMBIENT_SAMPLE[:]
     ctx.rule = (
         "72-octet frames assembled from fields by the layout of the property (independent of the library): sequence 0..255, "
         "all 4 packet / 16 slot / 6 frame / 4 call types, both timeslots, colour 0..15 as the repeated nibble word, 24-bit ids "
@@ -1260,6 +2081,28 @@ def run(ctx):
         "decode must be a new object reading as the 72 octets encode (layout of the property), every serialisation must equal the "
         "layout applied to the object's current attributes; one long history keeps 300 (thorough 1200) distinct frames; all captured "
         "frames are decoded by every entry point at the start and read back at the end of the run. "
+        "Relations (rel:*): the frame's OWN fields against the values INSIDE the payload it carries and against each other. Carriers = "
+        "payloads built with the library's PDU classes and FEC encoders that embed chosen ids / colour (data headers of every parsable "
+        "format, CSBKs of every opcode with address fields incl. the NACK's reversed order and the Hytera sync CSBK, group / unit-to-unit "
+        "full LC under header and terminator, check fields recomputed or stale, PI header / rate-1/2 / rate-3/4 / rate-1 blocks with the ids "
+        "in the data octets (BE / LE / 10.a.b.c), sync / wake-up payloads with the 00-padded id copy of the captured syncs, the two ids the "
+        "other way round, non-zero fill, contiguous and trailer-word copies, voice bursts with EMB colour + the four VBPTC fragments of a "
+        "full LC, voice-sync bursts incl. the TDMA patterns); each carrier is read back by the library from its 33 octets alone. Per carrier: "
+        "~60 id relations (trailer = payload ids equal / crossed / one off either way / one bit off / octet-reversed / complemented / "
+        "truncated / shifted, src = dst = either payload id, one id tied and the other 0 / FFFFFF / random, src = dst, src = dst +- 1, ids "
+        "derived from sequence / colour / slot number / type words / 5a5a5a), colour = payload colour / +-1 / complement / one bit off / 0 / 15, "
+        "both timeslots x TDMA sync of either slot, sequence = payload counters and octets / colour / id octets; payload kind x four other slot "
+        "types; colour word and id-word low octets tied to the payload (out of range: correspondence only); pad tied to payload / sequence / "
+        "id; a checksum (library CRC-CCITT with two masks, CRC-32, 5-bit checksum, sums, xor, length) of one part of the frame written into "
+        "another part (every function x part x octet order for the two reserved words next to the payload, a sample for the other targets); the "
+        "frame's magic / header / trailer copied into the payload and reserved fields; frames serialised by the library from constructed "
+        "objects and decoded again. types:* = all pairs slot x frame, slot x packet, frame x packet, call x frame, call x packet (thorough: full "
+        "product). hist:conversation = streams (optionally LC header, voice A..E with the fragments of one LC in order, terminator) whose trailer "
+        "and payload ids agree, the reply (both swapped), the reply crossed against its payload, frames addressed to their own source, "
+        "sequence numbers running on (half wrap 255 -> 0), decoded by one entry point then another with a kept result re-stamped to the reply's "
+        "ids in between; neighbours of a history frame include ids swapped / dst := src / src := dst / src + 1. ambient:* = one child "
+        "`python -O` per run (root logger DEBUG, sys.stdout raising, random reseeded, the first calls on the classes and calls in between being "
+        "failing ones) decoding the captured frames and every ninth in-range relation frame by both decoders, same verdict. "
         "Distinct = distinct frame octets / distinct histories."
     )
     ctx.trusted_base += [
@@ -1299,6 +2142,28 @@ def run(ctx):
                 f["burst"], f["kind"] = payload.hex(), kind
                 i += 1
                 frame_case(ctx, f, build_frame(f), pairs, "type-sweep")
+    # sibling type fields, pairwise complete (both tiers): slot x frame, slot x packet, frame x packet, call x frame, call x packet
+    # (thorough: the full product slot x frame x packet x call on alternating timeslots)
+    def typed_case(vals, tag):
+        f = gen_frame(rng, pool, wf_bias=1.0)
+        f.update(vals)
+        repick(rng, pool, f)
+        ctx.count("types:" + tag)
+        frame_case(ctx, f, build_frame(f), pairs, "type-pairs")
+
+    tv = {"st": list(SLOT_VALUES.values()), "ft": list(FRAME_VALUES.values()), "pt": list(PACKET_VALUES.values()), "ct": list(CALL_VALUES.values())}
+    for ka, kb in (("st", "ft"), ("st", "pt"), ("ft", "pt"), ("ct", "ft"), ("ct", "pt")):
+        for va in tv[ka]:
+            for vb in tv[kb]:
+                typed_case({ka: va, kb: vb}, f"{ka} x {kb}")
+    if ctx.thorough():
+        n_t = 0
+        for st in tv["st"]:
+            for ft in tv["ft"]:
+                for pt in tv["pt"]:
+                    for ct in tv["ct"]:
+                        typed_case({"st": st, "ft": ft, "pt": pt, "ct": ct, "ts": list(TS_VALUES.values())[n_t % 2]}, "st x ft x pt x ct")
+                        n_t += 1
     # every sequence number, colour code, and id boundaries
     for s in range(256):
         f = gen_frame(rng, pool, wf_bias=1.0)
@@ -1311,6 +2176,9 @@ def run(ctx):
         frame_case(ctx, f, build_frame(f), pairs, "value-sweep")
     # reserved blocks of the captured frames x the other fields, single-octet perturbations (fixed share of the budget)
     reserved_sweep(ctx, rng, pool, pairs)
+    # the frame's own fields against the values inside the payload it carries, and against each other (fixed share of the budget)
+    relation_sweep(ctx, rng, pool, pairs)
+    ambient_child(ctx, list(AMBIENT_SAMPLE))
     # histories: every entry point, results kept / re-stamped / decoded again / serialised
     hist_lines = []
     history_probe(ctx, rng, pool, hist_lines)
